@@ -37,4 +37,4 @@ After writing each variant's files, restore the worktree with `git -C {wt} check
 
 {excl}
 
-Finish with a short report listing, per variant, the summary, the files touched and the verification results you observed. Leave the worktree clean.""")
+Finish with a short report listing, per variant, the summary, the files touched and the verification results you observed. Leave the worktree clean. Never use `git stash` (the stash is shared between all worktrees of the repository and other agents work in sibling worktrees); use `git diff > file` and `git apply` / `git apply -R` / `git checkout -- .` instead.""")
